@@ -8,11 +8,13 @@ import (
 
 	"compiler/verifh/c01"
 	"compiler/verifh/c04"
+	"compiler/verifh/c05"
 	"compiler/verifh/c08"
 	"compiler/verifh/c10"
 	"compiler/verifh/c11"
 	"compiler/verifh/c12"
 	"compiler/verifh/c16"
+	"compiler/verifh/c17"
 	"compiler/verifh/c20"
 	"compiler/verifh/fe"
 	"compiler/verifh/vl"
@@ -21,11 +23,13 @@ import (
 var checks = map[string]func(*vl.Ctx){
 	"C01": c01.Run,
 	"C04": c04.Run,
+	"C05": c05.Run,
 	"C08": c08.Run,
 	"C10": c10.Run,
 	"C11": c11.Run,
 	"C12": c12.Run,
 	"C16": c16.Run,
+	"C17": c17.Run,
 	"C20": c20.Run,
 }
 
